@@ -145,10 +145,13 @@ type workload struct {
 
 // quarantine = workload-specific regions + the two class-wide regions.
 func (w *workload) quarantine(p []int, c class) string {
-	if c.Timing && c.Arch == "gcn3" && !c.UnifiedGPU && c.NGPU > 1 && c.UnifiedMem {
+	if c.Timing && c.NGPU > 1 && c.UnifiedMem {
 		// every workload: the timing platform builder leaves
-		// CommandProcessor.Driver nil, the first page migration dereferences it
-		return "timing-plain-multi-gpu-unified-memory"
+		// CommandProcessor.Driver nil (and the page-migration controllers
+		// unwired); the first on-demand page migration dereferences it. Plain
+		// GPU sets hit it at once, a unified GPU as soon as work-groups reach a
+		// second GPU.
+		return "timing-multi-gpu-unified-memory"
 	}
 	if w.Quar != nil {
 		return w.Quar(p, c)
@@ -233,6 +236,12 @@ func workloads() []*workload {
 			Adm:        func(p []int, c class) bool { return p[0]%8 == 0 && p[0] >= 8 },
 			Cost:       func(p []int) int { return p[0] * p[0] * p[0] },
 			PlainMulti: true, Splits: false, UnifiedMem: true, TimingList: tlFull, Oracle: oVerify,
+			Quar: func(p []int, c class) string {
+				if c.Arch == "gcn3" && c.Timing && p[0] >= 24 && p[1] == 0 {
+					return "gcn3-timing-24-or-more-nodes-all-passes"
+				}
+				return ""
+			},
 			Build: func(d *driver.Driver, a arch.Type, p []int) benchmarks.Benchmark {
 				b := floydwarshall.NewBenchmark(d)
 				b.NumNodes, b.NumIterations, b.Arch = uint32(p[0]), uint32(p[1]), a
@@ -363,6 +372,12 @@ func workloads() []*workload {
 			Adm:        func(p []int, c class) bool { return p[0] >= 1 && p[1] >= p[0] && p[1] <= p[0]*p[0] && p[2] >= 1 },
 			Cost:       func(p []int) int { return (p[0]*64 + p[1]) * p[2] * 4 },
 			PlainMulti: true, Splits: false, UnifiedMem: true, TimingList: tlFull, Oracle: oVerify,
+			Quar: func(p []int, c class) string {
+				if c.Arch == "gcn3" && c.Timing && p[0] > 16 && p[2] >= 3 {
+					return "gcn3-timing-three-or-more-iterations-over-more-than-16-nodes"
+				}
+				return ""
+			},
 			Build: func(d *driver.Driver, a arch.Type, p []int) benchmarks.Benchmark {
 				b := pagerank.NewBenchmark(d)
 				b.Arch, b.NumNodes, b.NumConnections, b.MaxIterations = a, uint32(p[0]), uint32(p[1]), uint32(p[2])
@@ -566,7 +581,7 @@ func workloads() []*workload {
 		{
 			Name: "lenet", Suite: "dnn-training", Archs: []string{"gcn3"},
 			ParamNames: []string{"batch", "batches", "epoch"}, Anchor: []int{32, 2, 1}, AnchorSrc: "sample default -batch-size=32 -max-batch-per-epoch=2 -epoch=1",
-			Sizes: [][]int{{1, 1, 1}, {2, 1, 1}, {3, 2, 1}},
+			Sizes: [][]int{{1, 1, 1}, {2, 1, 1}, {3, 2, 1}, {4, 1, 1}},
 			Admit: "batch, batches, epoch >= 1 (tiny counts for cost). MNIST is not shipped; the child writes an MNIST-format file pair with seeded pixel/label bytes and passes -mnist-data-folder. Verify() is 'not implemented': run without -verify, EnableVerification=true (operator cross-check). Multi-GPU = data parallel over gpus (mccl broadcast / all-reduce), batch must be a multiple of nGPUs",
 			Adm: func(p []int, c class) bool {
 				return p[0] >= c.nPlain() && p[0]%c.nPlain() == 0 && p[1] >= 1 && p[2] >= 1
@@ -633,6 +648,23 @@ func findWorkload(name string) *workload {
 		}
 	}
 	return nil
+}
+
+// parallelOK: the parallel engine (-parallel) is used only for (workload,
+// arch) pairs the acceptance matrix runs with it: every gcn3 entry, and on
+// cdna3 vectoradd, spmv, fft, stencil2d, bfs, nw. The cdna3 ports of
+// matrixmultiplication and nbody keep their per-work-group tile in ONE global
+// buffer shared by all work-groups, which is only correct as long as the
+// emulator runs work-groups one after the other (serial engine).
+func (w *workload) parallelOK(a string) bool {
+	if a == "gcn3" {
+		return true
+	}
+	switch w.Name {
+	case "vectoradd", "spmv", "fft", "stencil2d", "bfs", "nw":
+		return true
+	}
+	return false
 }
 
 func (w *workload) hasArch(a string) bool {
